@@ -206,6 +206,16 @@ impl Args {
         self.get(k).map(|s| s.parse().expect("numeric arg")).unwrap_or(default)
     }
     pub fn finish(&self, rep: &Report) -> ! {
+        // M-path: which code paths of the library decided the results of this run (hooks in /repo, --cfg lexical_verif)
+        #[cfg(lexical_verif)]
+        {
+            let snap = lexical_util::verif::snapshot();
+            for (i, n) in snap.iter().enumerate() {
+                if !lexical_util::verif::NAMES[i].is_empty() {
+                    rep.count(&format!("path.{}", lexical_util::verif::NAMES[i]), *n);
+                }
+            }
+        }
         let js = rep.to_json();
         match &self.out {
             Some(p) => std::fs::write(p, js).expect("write out"),
